@@ -252,9 +252,35 @@ def shrink_candidates(inp):
 MANIFEST = {
     "level_claimed": {
         "category": "proof",
-        "text": "",
+        "text": ("Coq theorems over ALL histories (induction over operation lists, no bound on length, amounts, accounts or "
+                 "number of mappings) of a model of the FunToken bridge — registry with both indexes, bank ledger, one ERC20 "
+                 "ledger per contract with a transfer-behaviour parameter (standard, fee-on-transfer with any fee function "
+                 "and sink, returns-false, too-heavy-for-the-gas-cap), CreateFunToken from coin / from ERC20, "
+                 "ConvertCoinToEvm (both births), precompile sendToBank / sendToEvm / bankMsgSend, user transfers, "
+                 "donations and burns, each optionally inside reverting / swallowing frames: C06_backing_invariant (after "
+                 "every transaction: coin-born totalSupply <= module escrow, ERC20-born bank supply <= module ERC20 "
+                 "balance, each ERC20 and denom in at most one mapping), C06_exact_backing (equality when nobody burns or "
+                 "donates directly and no token pays fees to the module; fee-on-transfer allowed), C06_unique_mapping + "
+                 "C06_duplicate_creation_rejected, C06_margin_never_shrinks, C06_send_to_bank_credits_measured (coins "
+                 "credited = MEASURED ERC20 increase, burned/minted/released the same amount), "
+                 "C06_to_evm_coin_born_credits_amount, C06_to_evm_erc20_born_margin. The model is tied to /repo on every "
+                 "run by executing it against the real keepers through BeginBlock/DeliverTx/EndBlock on generated "
+                 "histories (embedded TestERC20, TestERC20TransferWithFee, TestERC20MaliciousTransfer, a returns-false "
+                 "ERC20, a forwarder contract producing reverted sub-frames) and comparing after EVERY transaction the "
+                 "registry, totalSupply, balanceOf(module), bank supply, module escrow and the actors' balances; the "
+                 "proved-sound checker Pb is evaluated on the observed numbers themselves. 12 seeded code changes "
+                 "(mint amount instead of measured, forgotten burn, missing escrow, removed duplicate check, wrong "
+                 "recipient, off-by-one, ignored success flag, …) are each detected; a harmless refactor is not."),
         "design_ref": "DESIGN.md §5 C06",
     },
-    "level_note": "",
-    "technique": "Coq proof (invariant by induction over operation histories, parametric in ERC20 transfer behaviour) + differential correspondence on DeliverTx traces",
+    "level_note": ("Assumptions: ERC20s of ERC20-born mappings are 'conservative' (balances move only via transfer/burn by the "
+                   "holder, sender debited exactly the amount; rebasing / owner-mint / lying balanceOf are outside the "
+                   "statement, as 'standard tokens' in the property); the module account never originates calls; no other "
+                   "module mints a mapped erc20/ denom; unibi is not a modelled denom. Atomicity of reverted frames is a "
+                   "definition in the model (C04 carries the theorem) and is CHECKED against the implementation on sub-frame "
+                   "reverts, top-level reverts, swallowed failures and out-of-gas. No generated facts (nothing "
+                   "configuration-like). Trusted: Coq kernel + vm_compute, the Go driver and its canonicalisation, two "
+                   "hand-assembled contracts (forwarder, returns-false ERC20; listings in coq/C06/README.md), check.py."),
+    "technique": ("Coq proof: inductive invariant over operation histories, parametric in ERC20 transfer behaviour; "
+                  "differential correspondence of the executable model against DeliverTx traces; Pb on observed traces"),
 }
